@@ -427,9 +427,8 @@ class DiffRHS(object):
     def set_jac_base_order(self, order):
         if self.__jac_is_wrapped_rhs:
             self.__jac_wrapped_rhs_order = order
-            self.__jac = deutil.JacobianWrapper(lambda y, **kwargs: self.rhs(0.0, y, **kwargs),
-                                                base_order=self.__jac_wrapped_rhs_order, flat=True)
-            self.__jac_time = 0.0
+            # rebuilt with the new order by the next request, at the time of that request (counted evaluations, the layout of every other answer)
+            self.__jac_time = None
 
     def __str__(self):
         return self.equ_repr
